@@ -63,6 +63,11 @@ Theorem C17_unclosed_reference_refused :
   ref_syntax_ok [36;123;113]%N = false /\ ref_syntax_ok [36;123;113;32;125]%N = false /\ ref_syntax_ok [36;123;36;123;113;125;125]%N = false.
 Proof. exact unclosed_refused. Qed.
 Print Assumptions C17_unclosed_reference_refused.
+(* the shortest malformed reference: a cell that is exactly the two characters that open a reference (the early exit of the function was
+   for values of two characters or fewer and let it through: defect F95, repaired) *)
+Theorem C17_bare_reference_start_refused : ref_syntax_ok [36;123]%N = false /\ ref_syntax_ok [36]%N = true /\ ref_syntax_ok [] = true.
+Proof. vm_compute. repeat split; reflexivity. Qed.
+Print Assumptions C17_bare_reference_start_refused.
 
 (* headers: process_header's one partial operation (tokens[jr_idx + 1]) never fails, for ANY alias table, column set, delimiter mode and header *)
 Theorem C17_header_total : forall aliases columns dc h, process_header aliases columns dc h <> None.
